@@ -48,7 +48,11 @@ int main(int argc, char** argv) {
     const ref::Basis& B = ref::basis(d); int n = d * d;
     check(d, std::vector<double>(n, 0.0), "zero");
     for (int k = 0; k < n; k++) check(d, unit(d, k), "generator");
-    if (!ar.reduced) for (int k = 0; k < n; k++) for (int l = k + 1; l < n; l++) { check(d, twohot(d, k, l, 1, 1), "two-hot"); check(d, twohot(d, k, l, 1, 2), "two-hot"); }
+    if (!ar.reduced) for (int k = 0; k < n; k++) for (int l = k + 1; l < n; l++) { check(d, twohot(d, k, l, 1, 1), "two-hot"); check(d, twohot(d, k, l, 1, 2), "two-hot"); check(d, twohot(d, k, l, 1, -1), "two-hot-cancelling"); }
+    // three-hot with components summing to zero, and sign patterns over all off-diagonal slots (small-scope enumeration of {-1,0,1})
+    if (!ar.reduced && d <= 3) { int no = d * d - d; std::vector<int> off; for (int i = 0; i < d; i++) for (int j = 0; j < d; j++) if (i != j) off.push_back(d * i + j);
+      long tot = 1; for (int q = 0; q < no; q++) tot *= 3;
+      for (long code = 0; code < tot; code++) { std::vector<double> c(n, 0.0); long cc = code; for (int q = 0; q < no; q++) { c[off[q]] = (double)(cc % 3) - 1.0; cc /= 3; } c[d] = 0.5; check(d, c, "offdiag-sign-pattern"); } }
     // diagonal matrices over {0,1,2}^d: projectors, multiples of the identity, every degeneracy pattern
     long long total = 1; for (int i = 0; i < d; i++) total *= 3;
     for (long long code = 0; code < total; code++) { std::vector<double> e(d); long long c = code; for (int i = 0; i < d; i++) { e[i] = (double)(c % 3); c /= 3; } check(d, B.proj(ref::diag(e)), "diagonal"); }
